@@ -37,7 +37,7 @@ pub mod xmltree;
 
 pub fn for_property(p: &str) -> Vec<Suite> {
     match p {
-        "C09" => c09::suites().into_iter().chain(c09lex::suites()).chain(c09lex::stored_suites()).collect(),
+        "C09" => c09::suites().into_iter().chain(c09lex::suites()).chain(c09lex::stored_suites().into_iter().filter(|s| s.modelled)).collect(),
         "C10" => c10::suites(),
         "C16" => c16::suites(),
         "C18" => c18::suites(),
